@@ -276,6 +276,15 @@ def traces_of_hidden(out: str, system: Any, target: str, pages: Optional[Dict[st
                 if full == url and not (f == unquote(o.page_object.url) and not frag and pth == ''):
                     ctx = 'summary' if f in SUMMARY_PAGES else 'object-page'
                     sigs.append((('hidden-href', f'{tag}.{cls.split()[0] if cls else ""}', kindname, ctx), f'{f}: {attr}={u!r} targets hidden {k}'))
+        # generated relationship lists are index entries too (not text written by the author)
+        for f in os.listdir(out):
+            if not f.endswith('.html'):
+                continue
+            txt = open(os.path.join(out, f), encoding='utf-8').read()
+            for m in re.finditer(r'<(p|div)[^>]*>\s*(Known subclasses|overridden in|Known implementations|Implements interfaces|overrides)(.*?)</\1>', txt, flags=re.S):
+                items = [x.strip() for x in re.sub(r'<[^>]+>', '', m.group(3)).replace(':', ' ').split(',')]
+                if k in [i.strip() for i in items]:
+                    sigs.append((('hidden-in-relationship-list', m.group(2).replace(' ', '-'), kindname), f'{f}: "{m.group(2)}" lists hidden {k}'))
         for idx in ('searchindex.json', 'fullsearchindex.json'):
             pth = os.path.join(out, idx)
             # a search entry is a lunr document whose ref is the qualified name: field vectors are keyed "<field>/<ref>"
